@@ -72,7 +72,8 @@ try:
     if not cmd:
         cmd = "go test -vet=off -count=1 -run 'Seed|Demo' ."
     # the agents' commands often start by copying the demo into their own worktree: already done here
-    cmd = " && ".join(part.strip() for part in cmd.split("&&") if not part.strip().startswith("cp "))
+    cmd = " && ".join(l.strip() for l in cmd.splitlines() if l.strip() and not l.strip().startswith("#"))
+    cmd = " && ".join(part.strip() for part in cmd.split("&&") if part.strip() and not part.strip().startswith("cp "))
     if "cd " not in cmd:
         cmd = "cd %s && %s" % (WT, cmd)
     # without the change: demo passes (twice)
